@@ -116,7 +116,10 @@ impl Attr for StructAttr {
             }
         }
 
-        if self.type_as.is_some() {
+        if let Some(type_as) = &self.type_as {
+            if crate::utils::mentions_infer(type_as) {
+                syn_err!("`_` stands for the type of the field an `as` is written on: it cannot be used in the `as` of a struct or enum");
+            }
             if self.tag.is_some() {
                 syn_err!("`tag` is not compatible with `as`");
             }
